@@ -779,6 +779,30 @@ def work(job):
     return name, len(jobs), agree, findings
 
 
+def check_signatures():
+    """the (forces, arity) table written from the spec in builtins.py must equal what the
+    repository reports through `uplc-run --list-builtins`; returns a list of mismatch strings"""
+    out = subprocess.run([DRIVER, "--list-builtins"], capture_output=True, text=True).stdout
+    rust = {}
+    for line in out.splitlines():
+        try:
+            j = json.loads(line)
+            rust[j["name"]] = j
+        except (ValueError, KeyError):
+            pass
+    mine = {b.hname: b for b in B.BUILTINS.values()}
+    bad = []
+    for n in sorted(set(rust) | set(mine)):
+        if n not in rust:
+            bad.append("builtin %s: known to the oracle only" % n)
+        elif n not in mine:
+            bad.append("builtin %s: known to the repository only" % n)
+        elif (mine[n].forces, mine[n].arity) != (rust[n]["forces"], rust[n]["arity"]):
+            bad.append("builtin %s: oracle (forces=%d, arity=%d) repository (forces=%d, arity=%d)"
+                       % (n, mine[n].forces, mine[n].arity, rust[n]["forces"], rust[n]["arity"]))
+    return bad
+
+
 def main(argv=None):
     ap = argparse.ArgumentParser()
     ap.add_argument("-n", type=int, default=2000, help="cases per builtin")
@@ -797,6 +821,11 @@ def main(argv=None):
     if not os.path.exists(DRIVER):
         print("driver %s not found" % DRIVER)
         return 2
+    sig_bad = check_signatures()
+    for m in sig_bad:
+        print("SIGNATURE MISMATCH " + m)
+    if not sig_bad:
+        print("builtin signature table: %d builtins, identical to --list-builtins" % len(B.BUILTINS))
     jobs = [(n, a.n * (5 if n == "machine" else 1), a.seed, configs) for n in names]
     with multiprocessing.Pool(a.j) as pool:
         results = pool.map(work, jobs, chunksize=1)
@@ -821,7 +850,7 @@ def main(argv=None):
         with open(a.out, "w") as fh:
             for f in allf:
                 fh.write(json.dumps({"builtin": f[0], "kind": f[1], "config": f[2], "detail": f[3], "term": f[4]}) + "\n")
-    return 1 if allf else 0
+    return 1 if (allf or sig_bad) else 0
 
 
 if __name__ == "__main__":
